@@ -119,7 +119,7 @@ func (trc *TRC) Validate() error {
 	if trc.ID.IsBase() && len(trc.Votes) != 0 {
 		return serrors.JoinNoStack(ErrVotesOnBaseTRC, nil, "votes", len(trc.Votes))
 	}
-	if trc.Quorum == 0 || trc.Quorum > 255 {
+	if trc.Quorum <= 0 || trc.Quorum > 255 {
 		return serrors.JoinNoStack(ErrInvalidQuorumSize, nil, "voting_quorum", trc.Quorum)
 	}
 	if err := validateASSequence(trc.CoreASes); err != nil {
